@@ -16,7 +16,7 @@
       }
     >>
 
-    [children_loop_at] is that loop, nothing else: one unit of fuel per
+    [children_loop_gen] is that loop, nothing else: one unit of fuel per
     iteration, [Spin] when an iteration is due and the fuel is gone.  The
     remaining fuel is handed to [dispatch] so that a nested container runs
     its own loop on it; fuel never comes from a size field (a header can
@@ -24,8 +24,9 @@
 
     [dispatch] also receives [current], the stream position at which the
     child's header starts ([Mp4Reader::read_header] records it as the moof
-    offset).  [children_loop] is the instance for the containers that do not
-    look at it.
+    offset).  [children_loop] is the instance for the containers, which do not
+    look at it; [children_loop_at] is the instance for the reader, which also
+    needs the value of [current] when the loop ends.
 
     The first [current] is an argument: the Rust code reads it with
     [stream_position()] BEFORE it evaluates [start + size] (and the reader
@@ -35,55 +36,67 @@ Open Scope string_scope.
 Open Scope list_scope.
 Open Scope N_scope.
 
-Fixpoint children_loop_at {Acc : Type} (fuel : nat) (m : mode)
+(** the loop; [fin acc current] is what it returns when it ends (the reader needs the final
+    [current], the containers only the accumulator) *)
+Fixpoint children_loop_gen {Acc R : Type} (fuel : nat) (m : mode)
          (check_size : option N) (check_zero : bool) (end_ : N)
          (dispatch : nat -> N -> boxtype -> N -> Acc -> prog Acc)
-         (acc : Acc) (current : N) {struct fuel} : prog Acc :=
+         (fin : Acc -> N -> R)
+         (acc : Acc) (current : N) {struct fuel} : prog R :=
   if current <? end_ then
     match fuel with
     | O => Spin
     | S f =>
         '(name, s) <- read_header ;;
         if match check_size with Some size => size <? s | None => false end then Throw EData
-        else if check_zero && (s =? 0) then Ret acc                  (* break *)
+        else if check_zero && (s =? 0) then Ret (fin acc current)    (* break *)
         else
           acc' <- dispatch f current name s acc ;;
           current' <- get_pos ;;
-          children_loop_at f m check_size check_zero end_ dispatch acc' current'
+          children_loop_gen f m check_size check_zero end_ dispatch fin acc' current'
     end
-  else Ret acc.
+  else Ret (fin acc current).
 
+(** the form every container box uses *)
 Definition children_loop {Acc : Type} (fuel : nat) (m : mode)
            (check_size : option N (* Some parent size when the [s > size] guard exists *))
            (check_zero : bool) (end_ : N)
            (dispatch : nat (* remaining fuel *) -> boxtype -> N (* s *) -> Acc -> prog Acc)
            (acc : Acc) (current : N) : prog Acc :=
-  children_loop_at fuel m check_size check_zero end_ (fun f _ => dispatch f) acc current.
+  children_loop_gen fuel m check_size check_zero end_ (fun f _ => dispatch f) (fun a _ => a) acc current.
+
+(** the form of [Mp4Reader::read_header]: [dispatch] sees the position of the child's header,
+    and the final [current] is returned with the accumulator *)
+Definition children_loop_at {Acc : Type} (fuel : nat) (m : mode)
+           (check_size : option N) (check_zero : bool) (end_ : N)
+           (dispatch : nat -> N (* current *) -> boxtype -> N -> Acc -> prog Acc)
+           (acc : Acc) (current : N) : prog (Acc * N) :=
+  children_loop_gen fuel m check_size check_zero end_ dispatch pair acc current.
 
 (** the unfolding equation, for the proofs *)
-Lemma children_loop_at_eq {Acc : Type} fuel m cs cz end_
-      (dispatch : nat -> N -> boxtype -> N -> Acc -> prog Acc) acc current :
-  children_loop_at fuel m cs cz end_ dispatch acc current =
+Lemma children_loop_gen_eq {Acc R : Type} fuel m cs cz end_
+      (dispatch : nat -> N -> boxtype -> N -> Acc -> prog Acc) (fin : Acc -> N -> R) acc current :
+  children_loop_gen fuel m cs cz end_ dispatch fin acc current =
   if current <? end_ then
     match fuel with
     | O => Spin
     | S f =>
         '(name, s) <- read_header ;;
         if match cs with Some size => size <? s | None => false end then Throw EData
-        else if cz && (s =? 0) then Ret acc
+        else if cz && (s =? 0) then Ret (fin acc current)
         else
           acc' <- dispatch f current name s acc ;;
           current' <- get_pos ;;
-          children_loop_at f m cs cz end_ dispatch acc' current'
+          children_loop_gen f m cs cz end_ dispatch fin acc' current'
     end
-  else Ret acc.
+  else Ret (fin acc current).
 Proof. destruct fuel; reflexivity. Qed.
 
-Lemma children_loop_done {Acc : Type} fuel m cs cz end_
-      (dispatch : nat -> N -> boxtype -> N -> Acc -> prog Acc) acc current :
-  end_ <= current -> children_loop_at fuel m cs cz end_ dispatch acc current = Ret acc.
+Lemma children_loop_gen_done {Acc R : Type} fuel m cs cz end_
+      (dispatch : nat -> N -> boxtype -> N -> Acc -> prog Acc) (fin : Acc -> N -> R) acc current :
+  end_ <= current -> children_loop_gen fuel m cs cz end_ dispatch fin acc current = Ret (fin acc current).
 Proof.
-  intros H. rewrite children_loop_at_eq.
+  intros H. rewrite children_loop_gen_eq.
   destruct (N.ltb_spec current end_); [lia | reflexivity].
 Qed.
 
